@@ -43,6 +43,16 @@ Init == \/ /\ "psd" \in Modes /\ mode = "psd" /\ aux = <<>>
            /\ n = 2 /\ t \in SdMats(2)
            /\ aux \in [k : 1..3, share : {"own", "block"}, v : {1, 4, 9}]
            /\ (aux.share = "block" => aux.v = t[<<1, 1>>])
+        \* near-singular blocks: the rank-one matrix K * [[a*a, a*b], [a*b, b*b]] with its last entry changed by one
+        \* unit.  det = -/+ a*a*K whatever the scale K: reduced by ANY amount it is indefinite, enlarged it is positive
+        \* definite (checked exactly here for K = 10, 100, 1000; the driver renders the same family with units of 1e-5
+        \* relative size, far below the size of the entries, e.g. [[4, 6], [6, 9]]*1e-2 with the last entry - 1e-7)
+        \/ /\ "ns" \in Modes /\ mode = "ns"
+           /\ n = 2
+           /\ aux \in [a : 1..3, b : {0 - 3, 0 - 2, 0 - 1, 1, 2, 3}, K : {10, 100, 1000}, dir : {"minus", "plus"}]
+           /\ t = [p \in Tri(2) |-> IF p = <<1, 1>> THEN aux.K * aux.a * aux.a
+                                   ELSE IF p = <<2, 1>> THEN aux.K * aux.a * aux.b
+                                   ELSE aux.K * aux.b * aux.b + (IF aux.dir = "minus" THEN 0 - 1 ELSE 1)]
         \/ /\ "th" \in Modes /\ mode = "th"
            /\ n = 1 /\ t = [p \in Tri(1) |-> 1]
            /\ aux \in ThetaSeqs
@@ -77,7 +87,8 @@ IsPSD == PSDMinors(Mat, n)
 Class == IF ~IsPSD THEN "indef" ELSE IF PDLeading(Mat, n) THEN "pd" ELSE "psd0"
 
 \* the design-level theorem: both definitions agree; pd <=> psd and non-singular
-Agree == (mode \in {"psd", "sd", "sh"}) =>
+NearSingular == mode = "ns" => Class = (IF aux.dir = "minus" THEN "indef" ELSE "pd")
+Agree == (mode \in {"psd", "sd", "sh", "ns"}) =>
          /\ IsPSD = PSDElim(Mat, [i \in 1..n |-> i])
          /\ (Class = "pd") = (IsPSD /\ Minor(Mat, 1..n) # 0)
 \* vacuity: both classes occur is checked by the driver on the emitted cases
@@ -96,5 +107,6 @@ Emit == /\ mode = "psd" => PrintT(<<"MAT", ToJson([n |-> n, t |-> Flat, cls |-> 
              PrintT(<<"SH", ToJson([n |-> n, t |-> Flat, sd |-> [i \in 1..n |-> Sd(i)],
                                     corr |-> [i \in 1..n |-> [j \in 1..n |-> <<Mat[i][j], Sd(i) * Sd(j)>>]],
                                     k |-> aux.k, share |-> aux.share, v |-> aux.v, sv |-> Root(aux.v)])>>)
+        /\ (mode = "ns" /\ aux.K = 1000) => PrintT(<<"NS", ToJson([n |-> 2, a |-> aux.a, b |-> aux.b, dir |-> aux.dir, cls |-> Class])>>)
         /\ mode = "th" => PrintT(<<"TH", ToJson([classes |-> aux])>>)
 =============================================================================
